@@ -3,6 +3,7 @@ package mongokit
 import (
 	"fmt"
 	"math"
+	"sort"
 
 	"go.mongodb.org/mongo-driver/bson"
 
@@ -117,11 +118,17 @@ func Project(doc, projection bsonkit.Doc) (bsonkit.Doc, error) {
 		}
 	}
 
-	// merge fields (overlays from operator expressions)
-	for path, value := range state.merge {
+	// merge fields (overlays from operator expressions) in a stable order as
+	// the outcome of overlapping paths would otherwise vary between calls
+	paths := make([]string, 0, len(state.merge))
+	for path := range state.merge {
+		paths = append(paths, path)
+	}
+	sort.Strings(paths)
+	for _, path := range paths {
 		// copy the value as it may be a window into an array of the original
 		// document that a merged sub path would otherwise write into
-		value, err = bsonkit.ConvertValue(value)
+		value, err := bsonkit.ConvertValue(state.merge[path])
 		if err != nil {
 			return nil, err
 		}
